@@ -1,10 +1,13 @@
 import Tahoe.Base.DrvUtil
 import Tahoe.Mutable.Content
+import Tahoe.Mutable.Handle
 /-! Driver for C09.
     `hist K MAXSEG op op …`   one whole history; ops:
        `c:s:HEX` / `c:m:HEX`  create SDMF / MDMF        `o:HEX`  overwrite
        `m:set:HEX` `m:app:HEX` `m:pre:HEX` `m:none` `m:same` `m:cut:N`   modify with that modifier
        `u:OFF:HEX`  update     `r:OFF:SIZE` / `r:OFF:n`  read (n = None)
+       `p` obtain a version object (no output); `hu:` `ho:` `hm:…` `hr:` = update / overwrite / modify / read through
+       that object (obtained implicitly if there is none); a read through it may answer `err:key`
      output: one field per op joined by `;` — mutators `ok:SEGSIZE:LEN` or `err:KIND`, reads HEX or `err:KIND`.
     `tu SEGSIZE OFFSET NEWHEX STARTHEX ENDHEX L1,L2,…`  TransformingUploadable.read for each length → HEX,HEX,…
     `enc K MAXSEG s|m DATALEN OFFSET UPLOADSIZE`  → `SEGSIZE NUMSEGS TAIL STARTING END` (setup_encoding_parameters;
@@ -45,22 +48,53 @@ def parseOp (tok : String) : Option (Sum Op (Nat × Option Nat)) :=
   | ["r", o, s] => do pure (.inr ((← o.toNat?), some (← s.toNat?)))
   | _ => none
 
-def runHist (cfg : Cfg) : Option Version → List String → List String → Option (List String)
-  | _, acc, [] => some acc.reverse
-  | st, acc, tok :: rest =>
+/-- handle tokens: `p`, or `h` + a plain token -/
+def parseHeld (tok : String) : Option HOp :=
+  if tok == "p" then some .pin
+  else if tok.startsWith "h" then
+    match parseOp (tok.drop 1).toString with
+    | some (.inl (.update o d)) => some (.update o d)
+    | some (.inl (.overwrite d)) => some (.overwrite d)
+    | some (.inl (.modify m)) => some (.modify m)
+    | some (.inr (o, sz)) => some (.read o sz)
+    | _ => none
+  else none
+
+def showHOut (s : HState) : HOut → Option String
+  | .none => none
+  | .ok => some (showSt (some s.file))
+  | .refused e => some (showErr e)
+  | .keyError => some "err:key"
+  | .bytes b => some (hexOfBytes b)
+
+def runHist (cfg : Cfg) : Option Version → Nat → Option Handle → List String → List String → Option (List String)
+  | _, _, _, acc, [] => some acc.reverse
+  | st, seq, hd, acc, tok :: rest =>
+    match parseHeld tok with
+    | some hop =>
+      match st with
+      | none => none
+      | some v =>
+        let h0 : Handle := match hd with
+          | some h => h
+          | none => { pinned := seq, pinnedVer := v, smapSeq := seq, smapVer := v }
+        let r := hstep cfg { seq := seq, file := v, h := h0 } hop
+        let acc' := match showHOut r.1 r.2 with | some o => o :: acc | none => acc
+        runHist cfg (some r.1.file) r.1.seq (some r.1.h) acc' rest
+    | none =>
     match parseOp tok with
     | none => none
     | some (.inl op) =>
       match step cfg st op with
-      | .ok st' => runHist cfg st' (showSt st' :: acc) rest
-      | .error e => runHist cfg st (showErr e :: acc) rest
+      | .ok st' => runHist cfg st' (seq + 1) hd (showSt st' :: acc) rest
+      | .error e => runHist cfg st seq hd (showErr e :: acc) rest
     | some (.inr (off, size?)) =>
       match st with
-      | none => runHist cfg st ("err:assert" :: acc) rest
+      | none => runHist cfg st seq hd ("err:assert" :: acc) rest
       | some v =>
         match read cfg.k v off size? with
-        | .ok b => runHist cfg st (hexOfBytes b :: acc) rest
-        | .error e => runHist cfg st (showErr e :: acc) rest
+        | .ok b => runHist cfg st seq hd (hexOfBytes b :: acc) rest
+        | .error e => runHist cfg st seq hd (showErr e :: acc) rest
 
 def tuReads (t : TU) (acc : List String) : List Nat → List String
   | [] => acc.reverse
@@ -71,7 +105,7 @@ def handle : List String → String
     match k.toNat?, ms.toNat? with
     | some k, some ms =>
       if k = 0 then "bad-op" else
-      match runHist { k := k, maxSeg := ms } none [] ops with
+      match runHist { k := k, maxSeg := ms } none 0 none [] ops with
       | some outs => ";".intercalate outs
       | none => "bad-op"
     | _, _ => "bad-op"
